@@ -13,8 +13,10 @@ def main():
     for item in spec["items"]:
         r = {}
         kw = {"input_encoding": item["input_encoding"]} if item.get("input_encoding") else {}
+        skw = {"strict_undefined": True} if item.get("strict") else {}
+        kw.update(skw)
         for pname, ctor in (
-            ("string", lambda: Template(item["text"])),
+            ("string", lambda: Template(item["text"], **skw)),
             ("file", lambda: Template(filename=item["file"], **kw)),
             ("module-reload", lambda: Template(filename=item["file"], module_directory=item["moddir"], **kw)),
         ):
